@@ -12,6 +12,11 @@ V : finder results on generated meshes of all first-order classes (graded, aniso
     BoundaryPointsAreFound / RaisesOutside in TraceC14.
 L : probes / interpolator / point_source for scalar, vector and tensor valued elements: ProbeRows (exact),
     P1Exact (rational oracle), LocalExpansion, AgreesWithInterpolate, SamePointSameValue, PointSourceOK (Fx).
+    Strongly graded meshes with several hundred cells (one block next to 40-150 thin layers; tet / hex / prism /
+    tri / quad): points of the big cells with >= 100 closer centroids; witness-based clauses (the generator
+    supplies a containing cell per point, TLC verifies it exactly), so the TLC cost does not grow with the mesh.
+    Call histories with IN-PLACE modified arguments: the same point array object handed again to the same
+    interpolator handle / probes / point_source after its contents were overwritten, permuted or incremented.
 Python only drives the library and changes representation; every verdict is a clause name reported by TLC.
 """
 import json
@@ -203,14 +208,24 @@ def probe_recipe(kind, p, t, elem, rng, fam, tier='quick'):
              {'op': 'interpolator', 'pts': [a, b, a, c]},            # repetition
              {'op': 'interpolator', 'pts': [c, a, b]},               # permutation
              {'op': 'probes', 'pts': [b, a, c]},
-             {'op': 'probes', 'pts': [g(j) for j in range(10, 20)]},
              {'op': 'probes', 'pts': [g(int(j)) for j in rng.permutation(20)[:10]]},
+             # ---- call histories with IN-PLACE modified arguments: the same array object ('buf') is handed to the
+             # same handle again after its contents were overwritten / permuted / incremented / one entry changed
+             {'op': 'interpolator', 'pts': [g(3), g(4), g(5)], 'buf': 'A'},
+             {'op': 'interpolator', 'pts': [g(4), g(5), g(3)], 'buf': 'A', 'how': 'assign'},       # column permutation
+             {'op': 'interpolator', 'pts': [g(6), g(5), g(3)], 'buf': 'A', 'how': 'entry'},        # one entry overwritten
+             {'op': 'interpolator', 'pts': [g(7), g(8), g(9)], 'buf': 'A', 'how': 'iadd'},         # X += dX
+             {'op': 'interpolator', 'pts': [g(3), g(4), g(5)], 'buf': 'A', 'how': 'assign'},       # back to the first set
+             {'op': 'probes', 'pts': [g(12), g(13)], 'buf': 'B'},
+             {'op': 'probes', 'pts': [g(14), g(12)], 'buf': 'B', 'how': 'iadd'},
+             {'op': 'point_source', 'pts': [g(13)], 'buf': 'C'},
+             {'op': 'point_source', 'pts': [g(15)], 'buf': 'C', 'how': 'assign'},
              {'op': 'probes', 'pts': [a, oth[-1]]},                  # one point far outside: must raise
              {'op': 'point_source', 'pts': [a]},                     # scalar elements only (skipped otherwise)
              {'op': 'point_source', 'pts': [g(11)]},
              {'op': 'interpolator_nd', 'pts': [g(j) for j in range(6)]}]      # trailing axes (scalar elements only)
     if elem in SLOW:
-        calls = [calls[0], calls[2], calls[3]] + ([calls[5], calls[7]] if tier == 'thorough' else [])
+        calls = [calls[0], calls[2], calls[3], calls[9], calls[12]] + ([calls[5], calls[7]] if tier == 'thorough' else [])
     return {'driver': 'probe', 'kind': kind, 'family': fam, 'S': PSCALE, 'elem': elem,
             'p': np.asarray(p).astype(int).tolist(), 't': np.asarray(t).astype(int).tolist(),
             'yseed': int(rng.integers(0, 2 ** 31 - 1)), 'calls': calls}
@@ -417,6 +432,7 @@ def exec_probe(rec):
     # element under test cannot leak into the reference (ElementGlobal: one instance per scenario, its only
     # table is the per-mesh Vandermonde inverse, expensive to rebuild)
     shared_ref = [EL.make(name)] if meta['tol'] == 'global' else None
+    bufs = {}                       # persistent argument arrays of the in-place call histories
 
     for call in rec['calls']:
         op = call['op']
@@ -435,6 +451,22 @@ def exec_probe(rec):
         else:
             pts = call['pts']
             X = np.array(pts, dtype=float).T / S
+            if 'buf' in call:       # hand the SAME array object to the library again, contents modified in place
+                old = bufs.get(call['buf'])
+                if old is not None and old.shape == X.shape:
+                    how = call.get('how', 'assign')
+                    if how == 'iadd':
+                        old += X - old
+                    elif how == 'entry':
+                        old[:, 0] = X[:, 0]
+                        old[:, 1:] = X[:, 1:]
+                    else:
+                        old[...] = X
+                    if not np.array_equal(old, X):
+                        raise MachineryError('in-place update of the query points is not exact')
+                    X = old
+                else:
+                    bufs[call['buf']] = X
         N = X.shape[1]
         e = {'a': 'Probe', 'op': op if op != 'probes_qp' else 'probes', 'pts': [list(map(int, q)) for q in pts],
              'cells': [], 'rows': [], 'vals': [], 'phis': [], 'ref': [], 'ferr': '', 'err': '', 'pscols': [], 'psvals': []}
@@ -471,7 +503,15 @@ def exec_probe(rec):
                 vals = out.ravel()
                 rows, ps = None, None
             else:
-                v = np.asarray(b.point_source(X[:, 0]))
+                if 'buf' in call:                                       # persistent 1-D argument, updated in place
+                    x1 = bufs.get(call['buf'] + ':1d')
+                    if x1 is None:
+                        x1 = bufs[call['buf'] + ':1d'] = X[:, 0].copy()
+                    else:
+                        x1[:] = X[:, 0]
+                else:
+                    x1 = X[:, 0]
+                v = np.asarray(b.point_source(x1))
                 nz = np.nonzero(v)[0]
                 ps = (nz, v[nz])
                 rows = [sorted(int(c) + 1 for c in nz)]
@@ -577,6 +617,11 @@ def run(ctx):
                 for (k, p, t, fam) in meshes]
         recs += [find_recipe(k, np.array(p, dtype=float), np.array(t), rng, k + '-roundoff-regression', nsingle=10, nbatch=2, extra=x)
                  for (k, p, t, x) in ROUNDOFF_REGRESSIONS]
+        # strongly graded meshes with several hundred cells (witness-based clauses, bounded TLC cost)
+        brng = np.random.default_rng(ctx.seed + 3014)
+        for kind, nslab in (('tet', 40), ('hex', 60), ('wedge', 60), ('tri', 150), ('quad', 150)) + \
+                           ((('tet', 60), ('hex', 40), ('tri', 120)) if th else ()):
+            recs.append(big_recipe(kind, nslab, brng, kind + '-boundary-layer', ncalls=10 if th else 6))
         prng = np.random.default_rng(ctx.seed + 1014)
         for name, meta in EL.CATALOGUE.items():
             for variant in range(2 if th else 1):
@@ -598,6 +643,7 @@ def run(ctx):
     finally:
         procs.close()
     keys = {json.dumps([r['kind'], r['p'], r['t'], r.get('elem', '')]) for r in recs + rrecs if len(r['t'][0]) >= 2}
+    ctx.notes['large_mesh_points_beyond_100_nearest_centroids'] = ctx.clause_counts.get('Info_WitnessBeyond100Nearest', 0)
     ctx.notes['distinct_nontrivial'] = len(keys)
     ctx.notes['scenarios_from_tlc_universe'] = len(rrecs)
     ctx.notes['model_drift'] = ctx.clause_counts.get('Info_ModelDrift', 0)
